@@ -1029,9 +1029,21 @@ func (s *Sim) streamHandler(rs *rpcState, stream grpc.ServerStream) (err error) 
 		}
 	}()
 	name := fmt.Sprintf("h%d", r.ID)
+	var senderDone chan struct{}
+	if len(r.Handler2) > 0 {
+		senderDone = s.spawnHandlerSender(rs, stream, r.Handler2)
+	}
 	for _, op := range r.Handler {
 		simrt.Yield(name + ":" + op.K)
 		var opErr error
+		if op.K == "return" && senderDone != nil {
+			// like any handler that starts a goroutine: wait for it first
+			ev := s.begin(r.ID, 'h', 0, "join")
+			<-senderDone
+			simrt.Woken("join")
+			s.end(ev, nil)
+			senderDone = nil
+		}
 		switch op.K {
 		case "late":
 			late = append(late, op)
@@ -1151,6 +1163,53 @@ func (s *Sim) handlerRecv(rs *rpcState, stream grpc.ServerStream, junk bool) err
 	}
 	s.end(ev, err)
 	return err
+}
+
+// spawnHandlerSender runs the sending half of a full-duplex handler in a
+// goroutine of its own (gRPC allows one sender and one receiver per stream).
+func (s *Sim) spawnHandlerSender(rs *rpcState, stream grpc.ServerStream, ops []Op) chan struct{} {
+	done := make(chan struct{})
+	r := rs.r
+	s.mu.Lock()
+	s.liveActors++
+	s.mu.Unlock()
+	site := fmt.Sprintf("actor:hs%d", r.ID)
+	simrt.GoSpawn(site)
+	go func() {
+		simrt.GoStart(site)
+		defer simrt.GoEnd()
+		simrt.SetName(fmt.Sprintf("hs%d", r.ID))
+		defer func() {
+			s.mu.Lock()
+			s.liveActors--
+			s.mu.Unlock()
+			close(done)
+		}()
+		name := fmt.Sprintf("hs%d", r.ID)
+		for _, op := range ops {
+			simrt.Yield(name + ":" + op.K)
+			switch op.K {
+			case "send":
+				obj := buildObj(op.Msg, r.DynH)
+				s.mu.Lock()
+				rs.hSentObjs = append(rs.hSentObjs, obj)
+				s.mu.Unlock()
+				ev := s.begin(r.ID, 'h', 1, "send")
+				ev.Msg = op.Msg
+				ev.sobj = obj
+				err := guard(ev, func() error { return stream.SendMsg(obj) })
+				s.end(ev, err)
+				if err != nil {
+					return
+				}
+			case "sleep":
+				ev := s.begin(r.ID, 'h', 1, "sleep")
+				s.sleep(time.Duration(op.D))
+				s.end(ev, nil)
+			}
+		}
+	}()
+	return done
 }
 
 // spawnLate: a goroutine the handler started keeps using the stream after the
